@@ -17,6 +17,8 @@ class Timeline:
         # union of [b, b+len), merging overlapping and touching intervals
         U = []
         for b, l in sorted(warps):
+            if l <= 0:
+                continue   # a warp of no length skips nothing
             e = b + l
             if U and b <= U[-1][1]:
                 if e > U[-1][1]:
